@@ -57,6 +57,9 @@ def make_model(i, kind, n, solved):
     m.add_variable('Kint', [3 + k for k in range(n)], dtype=int)
     m.add_variable('Qbool', [k % 2 == 0 for k in range(n)], dtype=bool)
     m.add_variable('Sstr', ['s%d' % k for k in range(n)], dtype='<U3')
+    m.add_variable('F32', [0.5 + k for k in range(n)], dtype=np.float32)   # sized dtypes are dtypes too
+    m.add_variable('I8', [k - 2 for k in range(n)], dtype=np.int8)
+    m.add_variable('U16', [1000 + k for k in range(n)], dtype=np.uint16)
     m.add_variable('_hidden', 7.5, dtype=float)
     m.add_variable('_ihid', 4, dtype=int)
     if m.names and not m.names[0].startswith('_'):
@@ -109,7 +112,8 @@ def export_is_a_copy(m, export, tag):
     stored = {c: vars(m)['_' + c].copy() for c in df.columns}
     for c in df.columns:
         a = vars(m)['_' + c]
-        a[0] = {'f': -12345.5, 'i': -12345, 'u': 201, 'b': not bool(a[0]), 'U': 'zz'}.get(a.dtype.kind, a[0])
+        k = a.dtype.kind
+        a[0] = -12345.5 if k == 'f' else (int(a[0]) ^ 1) if k in 'iu' else (not bool(a[0])) if k == 'b' else 'zz' if k == 'U' else a[0]   # (integers: flip the lowest bit - fits every width)
     changed = [c for c in df.columns if not all(_eq(x, y) for x, y in zip(df[c].tolist(), frozen[c]))]
     if changed:
         out.append(('%s:table-follows-model' % tag, 'an exported table keeps its values', changed[:3], 'writing to the model afterwards changed a table exported earlier'))
